@@ -802,7 +802,9 @@ type replay struct {
 	Key   string     `json:"key"`
 	Cfg   config     `json:"config"`
 	Moves []string   `json:"moves,omitempty"`
-	Stall *stallCase `json:"stall,omitempty"` // a script of the silent-peers configuration instead of a move list
+	Stall *stallCase `json:"stall,omitempty"`          // a script of the silent-peers configuration instead of a move list
+	AW    []string   `json:"aworset_valued,omitempty"` // a continuation of the AWORSet-valued configuration (awdiv.go)
+	IsAW  bool       `json:"is_aworset_valued,omitempty"`
 	What  string     `json:"what"`
 }
 
@@ -885,6 +887,17 @@ func TestCheck(t *testing.T) {
 			}
 			sl := &slot{}
 			defer sl.drop()
+			if r.IsAW {
+				f, out, err := runAW(sl, r.AW)
+				res.Coverage = map[string]any{"evaluations": 1, "distinct_nontrivial": 0, "rule": "replay of one script of the AWORSet-valued configuration", "samples": []any{strings.Join(r.AW, " ") + " => " + out}}
+				if err != nil {
+					res.Coverage["env_error"] = "environment failure (discarded, not a verdict)"
+				}
+				if f != nil {
+					res.Violations = append(res.Violations, hres.Viol{Key: f.key, What: f.what, Replay: replay{Key: f.key, AW: r.AW, IsAW: true, What: f.what}})
+				}
+				return res
+			}
 			if r.Stall != nil {
 				curN = 2
 				stride = 6
@@ -960,6 +973,66 @@ func TestCheck(t *testing.T) {
 			runs = append(runs, map[string]any{"config": "silent-peers: replicas 0,1 + scripted X0,X1, send timeout 40 ms, wedge bound 6000+1500 ms", "executions": st.Executions,
 				"distinct_outcomes": st.Outcomes, "exhaustive": st.Exhaustive, "cap_hit": st.CapHit, "divergences": st.Divergences, "wall_s": st.WallS,
 				"violation_keys": len(st.Violations), "longest_round_ms": maxMs})
+		}
+		{
+			// AWORSet-valued configuration (awdiv.go): scripted prefix + every continuation of at most awDepth moves
+			if env.Thorough() {
+				awDepth, awPrefixTick = 7, false
+			}
+			var smu sync.Mutex
+			var slots []*slot
+			st := explore.Run(awBody, explore.Options{Workers: env.Workers, Deadline: time.Now().Add(time.Until(env.Deadline) / 3), Samples: 2,
+				Setup: func(w int) any {
+					s := &slot{}
+					smu.Lock()
+					slots = append(slots, s)
+					smu.Unlock()
+					return s
+				}})
+			evals += st.Executions
+			distinct += st.Outcomes
+			divergences += st.Divergences
+			exhaustive = exhaustive && st.Exhaustive
+			for _, s := range st.Samples {
+				samples = append(samples, map[string]any{"config": "aworset-valued", "choices": s.Choices, "outcome": s.Outcome})
+			}
+			msl := &slot{}
+			for _, v := range st.Violations {
+				if _, ok := viol[v.Key]; ok {
+					continue
+				}
+				cont, _ := v.Detail.([]string)
+				what := v.What
+				// shortest witness: drop moves while the same key is still reported three times out of three
+				for changed := true; changed; {
+					changed = false
+					for i := range cont {
+						cand := append(append([]string{}, cont[:i]...), cont[i+1:]...)
+						okAll := true
+						w2 := ""
+						for k := 0; k < 3 && okAll; k++ {
+							f, _, err := runAW(msl, cand)
+							okAll = err == nil && f != nil && f.key == v.Key
+							if okAll {
+								w2 = f.what
+							}
+						}
+						if okAll {
+							cont, what, changed = cand, w2, true
+							break
+						}
+					}
+				}
+				viol[v.Key] = hres.Viol{Key: v.Key, What: what, Replay: replay{Key: v.Key, AW: cont, IsAW: true, What: what}}
+			}
+			msl.drop()
+			for _, s := range slots {
+				if s.w != nil {
+					s.w.kill()
+				}
+			}
+			runs = append(runs, map[string]any{"config": fmt.Sprintf("aworset-valued: 3 nodes, prefix n0:add x n1:add x n2:add y (+t2: %v), continuations of <= %d moves {t<i>,b<i>,e<i>,r0,r1}, one held round", awPrefixTick, awDepth), "executions": st.Executions,
+				"distinct_outcomes": st.Outcomes, "exhaustive": st.Exhaustive, "cap_hit": st.CapHit, "divergences": st.Divergences, "wall_s": st.WallS, "violation_keys": len(st.Violations)})
 		}
 		for i, cfg := range cfgs {
 			curN = cfg.N
